@@ -344,6 +344,13 @@ func notFromServer(p *refcodec.Packet) string {
 	// says otherwise)
 	q := *p
 	q.NonMinimalLength = false
+	switch q.Type {
+	case refcodec.PUBACK, refcodec.PUBREC, refcodec.PUBCOMP, refcodec.UNSUBACK, refcodec.SUBACK:
+		// the identifier of an acknowledgement is the one the client chose, 0 included
+		if q.ID == 0 {
+			q.ID = 1
+		}
+	}
 	if !refcodec.WellFormed(&q) {
 		return "malformed"
 	}
